@@ -199,8 +199,9 @@ class Val:
 class TransformEval:
     """Evaluates one expression of a constraint method symbolically."""
 
-    def __init__(self, self_name: str, arg_name: str, transform_prim: str, arg_val: Optional[Val] = None):
+    def __init__(self, self_name: str, arg_name: str, transform_prim: str, arg_val: Optional[Val] = None, resolver=None):
         self.sn, self.arg = self_name, arg_name
+        self.resolver = resolver  # attribute name -> expression over self.lower_bound / self.upper_bound (properties, refreshed copies)
         if transform_prim not in PRIMITIVES:
             raise AnalysisError("symint: default transform %r has no primitive summary" % transform_prim)
         self.prim = PRIMITIVES[transform_prim]
@@ -223,6 +224,10 @@ class TransformEval:
                 return Val(atom("L"), Lin(a=1), Lin(a=1), 0, True)
             if c == "%s.upper_bound" % self.sn:
                 return Val(atom("U"), Lin(b=1), Lin(b=1), 0, True)
+            if self.resolver is not None and c and c.startswith(self.sn + ".") and c.count(".") == 1:
+                r = self.resolver(c.split(".")[1])
+                if r is not None:
+                    return self.ev(r)
             raise AnalysisError("symint: unknown attribute %s" % c)
         if isinstance(e, ast.UnaryOp) and isinstance(e.op, ast.USub):
             v = self.ev(e.operand)
